@@ -9,6 +9,7 @@ CONSTANTS
   LeafVals <- MC_LeafVals
   UnOps <- MC_UnOps
   BinOps <- MC_BinOps
+  CtorShapes <- MC_CtorShapes
 VIEW View
 CONSTRAINT Bounded
 ACTION_CONSTRAINT Dump
